@@ -1,13 +1,26 @@
 (** C06 — Emitted signatures respect the rejection bounds that protect the secret key.
-    Only property theorems here, closed by [exact] of lemmas proved in PSignStruct.v.
-    What is proved (for every parameter record, key bytes, message, mode, randomness tape and fuel): whenever the
-    model's signer returns a signature, that signature is the packing of a response z and a hint vector h that
-    passed all four rejection tests on the signer's own intermediates, and hence ||z||_inf < gamma1 - beta and
-    h is a 0/1 vector of weight <= omega; the low-bits and c*t0 vectors of the accepted attempt are below
-    gamma2 - beta and gamma2. The identification of those intermediates with the ring expressions
-    LowBits(Ay - c s2), c t0 and the challenge hash is NOT a Coq theorem; the check recomputes them from the
-    emitted bytes and the secret key with an independent implementation (see evidence). *)
-From DV Require Import Base MReduce MParams MPoly MPolyvec MPacking MSign PNorm PSignStruct.
+    Only property theorems here, closed by [exact] of lemmas proved in PEmitted.v / PSignSpec.v / PSignStruct.v.
+    PROVED for the six parameter sets, every key from key generation, every message and mode: whatever the signer returns is
+    sigEncode(ctilde, z, h) of an attempt of the SPECIFICATION (y = ExpandMask(rho'', kappa), w = A y, c = SampleInBall(ctilde),
+    ctilde = H(mu || w1Encode(HighBits(w)))) with z = y + c s1 (centred), ||z|| < gamma1 - beta, ||LowBits(w - c s2)|| < gamma2 - beta,
+    ||c t0|| < gamma2 and h = MakeHint(-c t0, w - c s2 + c t0) of weight <= omega — i.e. exactly the conditions under which a
+    signature is independent of the secret key; and, at the level of the signer's own intermediates, every emitted (z, h) passed
+    the four tests and every rejected attempt was rejected for a stated reason. *)
+From DV Require Import Base MReduce MParams MPoly MPolyvec MPacking MSign PNorm PSignStruct PTape PSignTotal PKeygen PKeyCodec PSignSpec PEmitted.
+
+Theorem C06_emitted_signature_is_an_accepting_attempt_of_the_specification :
+  forall (P : params) (xi pk sk sig0 m : list Z) (rand : bool) (tape sig tape' : list Z)
+         (rho K tr : list Z) (s1 s2 t0 : list (list Z)),
+  std P -> S_keygen P xi pk sk -> zlen sk = pSK P -> Forall is_byte m -> zlen sig0 = pSIG P -> tape_ok P rand tape ->
+  S_skDecode (pETA P) (pK P) (pL P) (pTR P) sk = (rho, K, tr, s1, s2, t0) ->
+  signature P sig0 m sk rand tape = Ok (sig, tape') ->
+  exists (A : list (list (list Z))) (n : nat),
+    S_expandA P rho A /\
+    let mu := SKeccak.S_shake 136 (tr ++ m) 64 in
+    let rpp := S_rhopp P K (if rand then Some (firstn (Z.to_nat (rand_bytes P)) tape) else None) mu in
+    spec_accepting_attempt P A s1 s2 t0 mu rpp (Z.of_nat n) sig.
+Proof. exact emitted_signature_is_accepting_spec_attempt. Qed.
+Print Assumptions C06_emitted_signature_is_an_accepting_attempt_of_the_specification.
 
 Theorem C06_emitted_signature_bounds :
   forall (P : params) (fuel : nat) (sig msg sk : list Z) (rand : bool) (tape s trace tape' : list Z),
